@@ -444,7 +444,7 @@ func main() {
 	traces := flag.Int("traces", 10, "number of traces")
 	steps := flag.Int("steps", 150, "labels per trace")
 	out := flag.String("out", "cosim.trace", "trace file")
-	fam := flag.String("families", "normal,lossy,delay,crash,snapshot,timed,bigsnap", "scenario families")
+	fam := flag.String("families", "normal,lossy,delay,crash,snapshot,timed,bigsnap,member", "scenario families")
 	replay := flag.String("replay", "", "replay the labels of this trace file instead of generating")
 	one := flag.Int("one", -1, "child mode: generate only trace number N")
 	workers := flag.Int("workers", 8, "parallel child processes")
